@@ -410,6 +410,7 @@ Section History.
         | None => [-2]
         | Some t => if cell_exists t c then obs_result (spec_answer (conn_of t) 1 false c) else [-2]
         end
+    | Cert tris => obs_cert sp tris
     end.
   Definition next_tbl (t : option table) (o : op) : option table :=
     match o, t with Build tbl, None => Some tbl | _, _ => t end.
@@ -431,7 +432,7 @@ Section History.
     st_ok (fst (step pI pG cprop sp st o)).
   Proof.
     intros Hok. destruct st as [t ch]. unfold st_ok in *. cbn [st_tbl st_cache] in *.
-    destruct o as [tbl|form c r ic|c]; cbn [step spec_obs next_tbl st_tbl st_cache].
+    destruct o as [tbl|form c r ic|c|tris]; cbn [step spec_obs next_tbl st_tbl st_cache].
     - destruct t as [t|]; cbn [fst snd st_tbl st_cache]; repeat split; auto.
       subst ch. apply Inv_nil.
     - destruct t as [t|]; [|cbn [fst snd st_tbl st_cache]; auto].
@@ -442,6 +443,7 @@ Section History.
       destruct (cell_exists t c); [|cbn [fst snd st_tbl st_cache]; auto].
       destruct (neighborhood_prop_ok (conn_of t) pI pG cprop HI HG c ch Hok) as [H1 H2].
       cbn [fst snd st_tbl st_cache]. rewrite H1. auto.
+    - cbn [fst snd st_tbl st_cache]. destruct t; auto.
   Qed.
 
   Lemma run_ops_ok ops : forall st, st_ok st ->
@@ -1275,4 +1277,502 @@ Lemma conns_dict_eq torus dims offsets c :
 Proof.
   intros H. unfold conns_dict. rewrite conns_dict_acc; [reflexivity|exact H|].
   intros k [].
+Qed.
+
+(* ================================================================== 5. orthogonal grids: r-hop ball = metric ball *)
+(* hops over an arbitrary node type (coordinates here) *)
+Inductive ghops {A : Type} (conn : A -> list A) : nat -> A -> A -> Prop :=
+| ghops_O c : ghops conn 0 c c
+| ghops_S n c m d : In m (conn c) -> ghops conn n m d -> ghops conn (S n) c d.
+
+(* per-axis distance: toroidal on a torus, plain otherwise *)
+Definition axis_dist (torus : bool) (n a b : Z) : Z :=
+  if torus then Z.min ((a - b) mod n) ((b - a) mod n) else Z.abs (a - b).
+Fixpoint dist_inf (torus : bool) (dims c d : list Z) : Z :=
+  match dims, c, d with
+  | n :: dims', a :: c', b :: d' => Z.max (axis_dist torus n a b) (dist_inf torus dims' c' d')
+  | _, _, _ => 0
+  end.
+Fixpoint dist_1 (torus : bool) (dims c d : list Z) : Z :=
+  match dims, c, d with
+  | n :: dims', a :: c', b :: d' => axis_dist torus n a b + dist_1 torus dims' c' d'
+  | _, _, _ => 0
+  end.
+(* Chebyshev (Moore) / Manhattan (von Neumann) distance of two cells *)
+Definition gdist (moore torus : bool) (dims c d : list Z) : Z :=
+  if moore then dist_inf torus dims c d else dist_1 torus dims c d.
+
+Definition good (dims : list Z) (c : coord) : Prop := length c = length dims /\ in_bounds dims c = true.
+
+Lemma good_cons n dims a c : good (n :: dims) (a :: c) <-> (0 <= a < n) /\ good dims c.
+Proof.
+  unfold good, in_bounds. simpl. rewrite !andb_true_iff, Z.leb_le, Z.ltb_lt. split.
+  - intros [H1 [[H2 H3] H4]]. split; [lia|]. split; [congruence|exact H4].
+  - intros [[H2 H3] [H1 H4]]. split; [congruence|]. auto.
+Qed.
+
+Lemma good_nil_l c : good [] c -> c = [].
+Proof. intros [H _]. destruct c; [reflexivity|discriminate]. Qed.
+Lemma good_cons_inv n dims c : good (n :: dims) c -> exists a c', c = a :: c' /\ (0 <= a < n) /\ good dims c'.
+Proof.
+  destruct c as [|a c']; [intros [H _]; discriminate|]. intros H. apply good_cons in H. eauto.
+Qed.
+
+Lemma mod_diff_nf n a b : 0 <= a < n -> 0 <= b < n ->
+  (a - b) mod n = if a <? b then a - b + n else a - b.
+Proof.
+  intros Ha Hb. destruct (a <? b) eqn:E.
+  - apply Z.ltb_lt in E. rewrite <- (Z_mod_plus_full (a - b) 1 n). rewrite Z.mod_small by lia. lia.
+  - apply Z.ltb_ge in E. apply Z.mod_small. lia.
+Qed.
+
+Lemma axis_dist_nf torus n a b : 0 <= a < n -> 0 <= b < n ->
+  axis_dist torus n a b = if torus then Z.min (Z.abs (a - b)) (n - Z.abs (a - b)) else Z.abs (a - b).
+Proof.
+  intros Ha Hb. unfold axis_dist. destruct torus; [|reflexivity].
+  rewrite (mod_diff_nf n a b), (mod_diff_nf n b a) by assumption.
+  destruct (a <? b) eqn:E1; destruct (b <? a) eqn:E2; lia.
+Qed.
+
+Definition axis_step (torus : bool) (n a e : Z) : Z := if torus then (a + e) mod n else a + e.
+
+Lemma axis_step_nf n a e : 0 <= a < n -> -1 <= e <= 1 ->
+  axis_step true n a e = if a + e <? 0 then a + e + n else if n <=? a + e then a + e - n else a + e.
+Proof.
+  intros Ha He. unfold axis_step. destruct (a + e <? 0) eqn:E1.
+  - apply Z.ltb_lt in E1. rewrite <- (Z_mod_plus_full (a + e) 1 n). rewrite Z.mod_small by lia. lia.
+  - apply Z.ltb_ge in E1. destruct (n <=? a + e) eqn:E2.
+    + apply Z.leb_le in E2. rewrite <- (Z_mod_plus_full (a + e) (-1) n). rewrite Z.mod_small by lia. lia.
+    + apply Z.leb_gt in E2. apply Z.mod_small. lia.
+Qed.
+
+(* one step changes the distance to b by at most |e| *)
+Lemma axis_tri torus n a b e : 0 <= a < n -> 0 <= b < n -> -1 <= e <= 1 ->
+  0 <= axis_step torus n a e < n ->
+  axis_dist torus n a b <= axis_dist torus n (axis_step torus n a e) b + Z.abs e.
+Proof.
+  intros Ha Hb He Hs. rewrite !axis_dist_nf by assumption. destruct torus.
+  - rewrite axis_step_nf in * by assumption.
+    destruct (a + e <? 0) eqn:E1; [|destruct (n <=? a + e) eqn:E2]; lia.
+  - unfold axis_step in *. lia.
+Qed.
+
+(* the offset that brings a one step nearer to b *)
+Definition toward (torus : bool) (n a b : Z) : Z :=
+  if a =? b then 0
+  else if torus then (if (b - a) mod n <=? (a - b) mod n then 1 else -1)
+       else (if a <? b then 1 else -1).
+
+Lemma axis_step_cases n a e : 0 <= a < n -> -1 <= e <= 1 ->
+  (axis_step true n a e = a + e /\ 0 <= a + e < n) \/
+  (axis_step true n a e = a + e + n /\ a + e = -1) \/
+  (axis_step true n a e = a + e - n /\ a + e = n).
+Proof.
+  intros Ha He. rewrite axis_step_nf by assumption.
+  destruct (a + e <? 0) eqn:E1; [apply Z.ltb_lt in E1; right; left; lia|].
+  apply Z.ltb_ge in E1. destruct (n <=? a + e) eqn:E2.
+  - apply Z.leb_le in E2. right. right. lia.
+  - apply Z.leb_gt in E2. left. lia.
+Qed.
+
+Lemma axis_toward torus n a b : 0 <= a < n -> 0 <= b < n ->
+  let e := toward torus n a b in
+  -1 <= e <= 1 /\ 0 <= axis_step torus n a e < n /\
+  axis_dist torus n (axis_step torus n a e) b = Z.max 0 (axis_dist torus n a b - 1) /\
+  Z.abs e = Z.min 1 (axis_dist torus n a b).
+Proof.
+  intros Ha Hb. cbv zeta. unfold toward. destruct (a =? b) eqn:Eab.
+  - apply Z.eqb_eq in Eab. subst b.
+    assert (axis_step torus n a 0 = a) as Hs.
+    { unfold axis_step. destruct torus; [rewrite Z.add_0_r; apply Z.mod_small; lia|lia]. }
+    rewrite Hs. rewrite !axis_dist_nf by assumption. destruct torus; lia.
+  - apply Z.eqb_neq in Eab. destruct torus.
+    + rewrite (mod_diff_nf n a b), (mod_diff_nf n b a) by assumption.
+      set (e := if (if b <? a then b - a + n else b - a) <=? (if a <? b then a - b + n else a - b) then 1 else -1).
+      assert ((e = 1 /\ (if b <? a then b - a + n else b - a) <= (if a <? b then a - b + n else a - b)) \/
+              (e = -1 /\ (if b <? a then b - a + n else b - a) > (if a <? b then a - b + n else a - b))) as He.
+      { unfold e. destruct ((if b <? a then b - a + n else b - a) <=? (if a <? b then a - b + n else a - b)) eqn:E3;
+          [apply Z.leb_le in E3; left; auto|apply Z.leb_gt in E3; right; split; [reflexivity|lia]]. }
+      clearbody e.
+      assert (-1 <= e <= 1) as Hb1 by lia.
+      destruct (axis_step_cases n a e Ha Hb1) as [[Hs Hr]|[[Hs Hr]|[Hs Hr]]]; rewrite Hs;
+        (split; [lia|]); (split; [lia|]); rewrite !axis_dist_nf by lia;
+        destruct (b <? a) eqn:E1; destruct (a <? b) eqn:E2; lia.
+    + unfold axis_step. destruct (a <? b) eqn:E1; rewrite !axis_dist_nf by lia; lia.
+Qed.
+
+Definition stepped (torus : bool) (dims : list Z) (c e : coord) : coord :=
+  if torus then wrap dims (vadd c e) else vadd c e.
+Lemma stepped_cons torus n dims a c x e :
+  stepped torus (n :: dims) (a :: c) (x :: e) = axis_step torus n a x :: stepped torus dims c e.
+Proof. destruct torus; reflexivity. Qed.
+Lemma stepped_nil torus c e : stepped torus [] c e = [] \/ True.
+Proof. right. exact I. Qed.
+
+Lemma axis_dist_nonneg torus n a b : 0 <= a < n -> 0 <= b < n -> 0 <= axis_dist torus n a b.
+Proof. intros Ha Hb. rewrite axis_dist_nf by assumption. destruct torus; lia. Qed.
+
+Lemma dists_nonneg torus dims : forall c d, good dims c -> good dims d ->
+  0 <= dist_inf torus dims c d /\ 0 <= dist_1 torus dims c d.
+Proof.
+  induction dims as [|n dims IH]; intros c d Hc Hd.
+  - simpl. lia.
+  - apply good_cons_inv in Hc. destruct Hc as [a [c' [-> [Ha Hc]]]].
+    apply good_cons_inv in Hd. destruct Hd as [b [d' [-> [Hb Hd]]]].
+    simpl. destruct (IH c' d' Hc Hd). pose proof (axis_dist_nonneg torus n a b Ha Hb). lia.
+Qed.
+
+Lemma axis_dist_zero torus n a b : 0 <= a < n -> 0 <= b < n -> axis_dist torus n a b = 0 -> a = b.
+Proof. intros Ha Hb. rewrite axis_dist_nf by assumption. destruct torus; lia. Qed.
+Lemma axis_dist_refl torus n a : 0 <= a < n -> axis_dist torus n a a = 0.
+Proof. intros Ha. rewrite axis_dist_nf by assumption. destruct torus; lia. Qed.
+
+Lemma dist_zero_eq torus dims : forall c d, good dims c -> good dims d ->
+  (dist_inf torus dims c d = 0 -> c = d) /\ (dist_1 torus dims c d = 0 -> c = d).
+Proof.
+  induction dims as [|n dims IH]; intros c d Hc Hd.
+  - apply good_nil_l in Hc. apply good_nil_l in Hd. subst. auto.
+  - apply good_cons_inv in Hc. destruct Hc as [a [c' [-> [Ha Hc]]]].
+    apply good_cons_inv in Hd. destruct Hd as [b [d' [-> [Hb Hd]]]].
+    simpl. destruct (IH c' d' Hc Hd) as [I1 I2]. destruct (dists_nonneg torus dims c' d' Hc Hd).
+    pose proof (axis_dist_nonneg torus n a b Ha Hb).
+    split; intros H2; (assert (axis_dist torus n a b = 0) as Hz by lia);
+      apply axis_dist_zero in Hz; try assumption; subst b; f_equal; [apply I1|apply I2]; lia.
+Qed.
+
+Lemma dist_refl torus dims : forall c, good dims c -> dist_inf torus dims c c = 0 /\ dist_1 torus dims c c = 0.
+Proof.
+  induction dims as [|n dims IH]; intros c Hc; [simpl; auto|].
+  apply good_cons_inv in Hc. destruct Hc as [a [c' [-> [Ha Hc]]]]. simpl.
+  destruct (IH c' Hc) as [-> ->]. rewrite axis_dist_refl by assumption. lia.
+Qed.
+
+(* one connection step changes the distance to d by at most the norm of the offset *)
+Lemma step_le torus dims : forall c e d,
+  good dims c -> good dims d -> length e = length dims -> Forall (fun x => -1 <= x <= 1) e ->
+  good dims (stepped torus dims c e) ->
+  dist_inf torus dims c d <= dist_inf torus dims (stepped torus dims c e) d + norm_inf e /\
+  dist_1 torus dims c d <= dist_1 torus dims (stepped torus dims c e) d + norm_1 e.
+Proof.
+  induction dims as [|n dims IH]; intros c e d Hc Hd He Hf Hs.
+  - simpl. pose proof (norm_inf_nonneg e). pose proof (norm_1_nonneg e).
+    destruct (stepped torus [] c e); simpl; lia.
+  - apply good_cons_inv in Hc. destruct Hc as [a [c' [-> [Ha Hc]]]].
+    apply good_cons_inv in Hd. destruct Hd as [b [d' [-> [Hb Hd]]]].
+    destruct e as [|x e']; [discriminate|]. inversion Hf as [|x' e'' Hx Hf']; subst.
+    rewrite stepped_cons in *. apply good_cons in Hs. destruct Hs as [Hs1 Hs2].
+    simpl in He. destruct (IH c' e' d' Hc Hd ltac:(congruence) Hf' Hs2) as [I1 I2].
+    pose proof (axis_tri torus n a b x Ha Hb Hx Hs1). simpl. lia.
+Qed.
+
+Lemma norm_1_bound e : norm_1 e <= 1 -> Forall (fun x => -1 <= x <= 1) e.
+Proof.
+  induction e as [|x e IH]; simpl; intros H; [constructor|].
+  pose proof (norm_1_nonneg e). constructor; [lia|]. apply IH. lia.
+Qed.
+
+(* --- towards d: Moore moves every axis, von Neumann the first axis that differs --- *)
+Fixpoint toward_all (torus : bool) (dims c d : list Z) : coord :=
+  match dims, c, d with
+  | n :: dims', a :: c', b :: d' => toward torus n a b :: toward_all torus dims' c' d'
+  | _, _, _ => []
+  end.
+Fixpoint toward_first (torus : bool) (dims c d : list Z) : coord :=
+  match dims, c, d with
+  | n :: dims', a :: c', b :: d' =>
+      if a =? b then 0 :: toward_first torus dims' c' d'
+      else toward torus n a b :: repeat 0 (length dims')
+  | _, _, _ => []
+  end.
+
+Lemma stepped_zeros torus dims : forall c, good dims c -> stepped torus dims c (repeat 0 (length dims)) = c.
+Proof.
+  induction dims as [|n dims IH]; intros c Hc.
+  - apply good_nil_l in Hc. subst. destruct torus; reflexivity.
+  - apply good_cons_inv in Hc. destruct Hc as [a [c' [-> [Ha Hc]]]]. simpl repeat.
+    rewrite stepped_cons, IH by assumption. f_equal.
+    unfold axis_step. destruct torus; [rewrite Z.add_0_r; apply Z.mod_small; lia|lia].
+Qed.
+
+Lemma norm_zeros n : norm_inf (repeat 0 n) = 0 /\ norm_1 (repeat 0 n) = 0.
+Proof. induction n; simpl; [auto|]. destruct IHn as [-> ->]. lia. Qed.
+
+Lemma toward_all_ok torus dims : forall c d, good dims c -> good dims d ->
+  let e := toward_all torus dims c d in
+  length e = length dims /\ Forall (fun x => -1 <= x <= 1) e /\ good dims (stepped torus dims c e) /\
+  dist_inf torus dims (stepped torus dims c e) d = Z.max 0 (dist_inf torus dims c d - 1) /\
+  norm_inf e = Z.min 1 (dist_inf torus dims c d).
+Proof.
+  induction dims as [|n dims IH]; intros c d Hc Hd.
+  - apply good_nil_l in Hc. apply good_nil_l in Hd. subst. simpl.
+    repeat split; try constructor; destruct torus; reflexivity.
+  - apply good_cons_inv in Hc. destruct Hc as [a [c' [-> [Ha Hc]]]].
+    apply good_cons_inv in Hd. destruct Hd as [b [d' [-> [Hb Hd]]]].
+    cbv zeta. cbn [toward_all]. rewrite stepped_cons.
+    destruct (IH c' d' Hc Hd) as [I1 [I2 [I3 [I4 I5]]]].
+    destruct (axis_toward torus n a b Ha Hb) as [T1 [T2 [T3 T4]]].
+    destruct (dists_nonneg torus dims c' d' Hc Hd) as [N1 _].
+    pose proof (axis_dist_nonneg torus n a b Ha Hb) as N2.
+    split; [simpl; congruence|]. split; [constructor; assumption|].
+    split; [apply good_cons; auto|]. cbn [dist_inf norm_inf fold_right].
+    fold (norm_inf (toward_all torus dims c' d')). rewrite T3, I4, I5, T4. lia.
+Qed.
+
+Lemma toward_first_ok torus dims : forall c d, good dims c -> good dims d ->
+  let e := toward_first torus dims c d in
+  length e = length dims /\ Forall (fun x => -1 <= x <= 1) e /\ good dims (stepped torus dims c e) /\
+  dist_1 torus dims (stepped torus dims c e) d = Z.max 0 (dist_1 torus dims c d - 1) /\
+  norm_1 e = Z.min 1 (dist_1 torus dims c d).
+Proof.
+  induction dims as [|n dims IH]; intros c d Hc Hd.
+  - apply good_nil_l in Hc. apply good_nil_l in Hd. subst. simpl.
+    repeat split; try constructor; destruct torus; reflexivity.
+  - apply good_cons_inv in Hc. destruct Hc as [a [c' [-> [Ha Hc]]]].
+    apply good_cons_inv in Hd. destruct Hd as [b [d' [-> [Hb Hd]]]].
+    cbv zeta. cbn [toward_first].
+    destruct (dists_nonneg torus dims c' d' Hc Hd) as [_ N1].
+    pose proof (axis_dist_nonneg torus n a b Ha Hb) as N2.
+    destruct (a =? b) eqn:Eab.
+    + apply Z.eqb_eq in Eab. subst b. rewrite stepped_cons.
+      destruct (IH c' d' Hc Hd) as [I1 [I2 [I3 [I4 I5]]]].
+      assert (axis_step torus n a 0 = a) as Hs.
+      { unfold axis_step. destruct torus; [rewrite Z.add_0_r; apply Z.mod_small; lia|lia]. }
+      rewrite Hs. split; [simpl; congruence|]. split; [constructor; [lia|assumption]|].
+      split; [apply good_cons; auto|]. cbn [dist_1 norm_1 fold_right].
+      fold (norm_1 (toward_first torus dims c' d')). rewrite I4, I5, axis_dist_refl by assumption. lia.
+    + rewrite stepped_cons, stepped_zeros by assumption.
+      destruct (axis_toward torus n a b Ha Hb) as [T1 [T2 [T3 T4]]].
+      split; [simpl; rewrite repeat_length; reflexivity|].
+      split; [constructor; [assumption|]; apply Forall_forall; intros x Hx; apply repeat_spec in Hx; lia|].
+      split; [apply good_cons; auto|]. cbn [dist_1 norm_1 fold_right].
+      fold (norm_1 (repeat 0 (length dims))). rewrite (proj2 (norm_zeros (length dims))), T3, T4.
+      apply Z.eqb_neq in Eab.
+      assert (axis_dist torus n a b <> 0) by (intros Hz; apply axis_dist_zero in Hz; auto).
+      lia.
+Qed.
+
+Definition conn_c (moore torus : bool) (dims : list Z) (c : coord) : list coord :=
+  map snd (orth_conns moore torus dims c).
+Definition gnorm (moore : bool) (e : coord) : Z := if moore then norm_inf e else norm_1 e.
+
+Lemma stepped_length torus dims c e :
+  length c = length dims -> length e = length dims -> length (stepped torus dims c e) = length dims.
+Proof.
+  intros Hc He. unfold stepped, wrap, vadd. destruct torus.
+  - rewrite zip_length; rewrite zip_length; congruence.
+  - rewrite zip_length; congruence.
+Qed.
+
+Lemma conn_c_spec : tables_2d_ok = true -> forall moore torus dims c m, good dims c ->
+  (In m (conn_c moore torus dims c) <->
+   exists e, length e = length dims /\ gnorm moore e = 1 /\ m = stepped torus dims c e /\ good dims m).
+Proof.
+  intros Hok moore torus dims c m [Hl Hb]. unfold conn_c. rewrite in_map_iff. split.
+  - intros [[e m'] [Hm Hin]]. simpl in Hm. subst m'.
+    apply (orth_conns_spec Hok moore torus dims c e m Hl) in Hin.
+    destruct Hin as [H1 [H2 [H3 H4]]]. exists e. split; [exact H1|]. split; [destruct moore; exact H2|].
+    split; [exact H3|]. split; [|exact H4]. rewrite H3. apply stepped_length; assumption.
+  - intros [e [H1 [H2 [H3 [H4 H5]]]]]. exists (e, m). split; [reflexivity|].
+    apply (orth_conns_spec Hok moore torus dims c e m Hl). split; [exact H1|].
+    split; [destruct moore; exact H2|]. split; [exact H3|exact H5].
+Qed.
+
+Lemma gnorm_unit moore e : gnorm moore e = 1 -> Forall (fun x => -1 <= x <= 1) e.
+Proof.
+  destruct moore; simpl; intros H; [apply norm_inf_le1; lia|apply norm_1_bound; lia].
+Qed.
+
+(* r hops cannot reach beyond distance r, and stay inside the grid *)
+Lemma ghops_dist : tables_2d_ok = true -> forall moore torus dims k c d,
+  ghops (conn_c moore torus dims) k c d -> good dims c ->
+  good dims d /\ gdist moore torus dims c d <= Z.of_nat k.
+Proof.
+  intros Hok moore torus dims k c d H. induction H as [c|k c m d Hin Hh IH]; intros Hc.
+  - split; [exact Hc|]. destruct (dist_refl torus dims c Hc) as [R1 R2].
+    unfold gdist. destruct moore; lia.
+  - apply (conn_c_spec Hok) in Hin; [|exact Hc]. destruct Hin as [e [He [Hn [Hm Hg]]]].
+    destruct (IH Hg) as [Hd Hk]. split; [exact Hd|]. subst m.
+    destruct (step_le torus dims c e d Hc Hd He (gnorm_unit moore e Hn) Hg) as [S1 S2].
+    unfold gdist, gnorm in *. destruct moore; lia.
+Qed.
+
+(* every in-grid cell at distance <= r is reached by <= r hops *)
+Lemma dist_ghops : tables_2d_ok = true -> forall moore torus dims k c d,
+  good dims c -> good dims d -> gdist moore torus dims c d <= Z.of_nat k ->
+  exists j, (j <= k)%nat /\ ghops (conn_c moore torus dims) j c d.
+Proof.
+  intros Hok moore torus dims k. induction k as [|k IH]; intros c d Hc Hd Hdist.
+  - assert (c = d) as ->.
+    { destruct (dist_zero_eq torus dims c d Hc Hd) as [Z1 Z2]. destruct (dists_nonneg torus dims c d Hc Hd).
+      unfold gdist in Hdist. destruct moore; [apply Z1|apply Z2]; lia. }
+    exists 0%nat. split; [lia|constructor].
+  - destruct (Z.eq_dec (gdist moore torus dims c d) 0) as [E0|E0].
+    + assert (c = d) as ->.
+      { destruct (dist_zero_eq torus dims c d Hc Hd) as [Z1 Z2]. unfold gdist in E0. destruct moore; auto. }
+      exists 0%nat. split; [lia|constructor].
+    + destruct (dists_nonneg torus dims c d Hc Hd) as [N1 N2].
+      set (e := if moore then toward_all torus dims c d else toward_first torus dims c d).
+      assert (length e = length dims /\ gnorm moore e = 1 /\ good dims (stepped torus dims c e) /\
+              gdist moore torus dims (stepped torus dims c e) d = gdist moore torus dims c d - 1) as [E1 [E2 [E3 E4]]].
+      { unfold e, gdist, gnorm in *. destruct moore.
+        - destruct (toward_all_ok torus dims c d Hc Hd) as [T1 [T2 [T3 [T4 T5]]]]. repeat split; try assumption; try apply T3; lia.
+        - destruct (toward_first_ok torus dims c d Hc Hd) as [T1 [T2 [T3 [T4 T5]]]]. repeat split; try assumption; try apply T3; lia. }
+      destruct (IH (stepped torus dims c e) d E3 Hd ltac:(lia)) as [j [Hj Hh]].
+      exists (S j). split; [lia|]. econstructor; [|exact Hh].
+      apply (conn_c_spec Hok); [exact Hc|]. exists e. auto.
+Qed.
+
+(* --- from coordinates to the cell ids of the model's own connection table --- *)
+Definition geom_table (sp : space) : table := map (map snd) (space_conns sp).
+Definition id_conn (moore torus : bool) (dims : list Z) : cell -> list cell :=
+  conn_of (geom_table (SOrth moore dims torus)).
+
+Lemma id_conn_spec moore torus dims c : Forall (fun d => 0 < d) dims -> good dims c ->
+  id_conn moore torus dims (coord_id dims c) = map (coord_id dims) (conn_c moore torus dims c).
+Proof.
+  intros Hpos [Hl Hb]. destruct (coord_id_index dims Hpos c Hl Hb) as [[Hi1 Hi2] Hnth].
+  unfold id_conn, conn_of, znth, geom_table. cbn [space_conns].
+  assert (coord_id dims c <? 0 = false) as -> by lia.
+  erewrite nth_error_nth; [|rewrite !nth_error_map, Hnth; reflexivity].
+  unfold enc_conns, conn_c. rewrite !map_map. reflexivity.
+Qed.
+
+Lemma coord_id_inj dims c d : Forall (fun x => 0 < x) dims -> good dims c -> good dims d ->
+  coord_id dims c = coord_id dims d -> c = d.
+Proof.
+  intros Hpos [Hc1 Hc2] [Hd1 Hd2] E.
+  destruct (coord_id_index dims Hpos c Hc1 Hc2) as [_ Hn1].
+  destruct (coord_id_index dims Hpos d Hd1 Hd2) as [_ Hn2].
+  rewrite E in Hn1. congruence.
+Qed.
+
+Lemma hops_id_to_c : tables_2d_ok = true -> forall moore torus dims, Forall (fun d => 0 < d) dims ->
+  forall k x z, hops (id_conn moore torus dims) k x z ->
+  forall c, good dims c -> x = coord_id dims c ->
+  exists d, good dims d /\ z = coord_id dims d /\ ghops (conn_c moore torus dims) k c d.
+Proof.
+  intros Hok moore torus dims Hpos k x z H. induction H as [x|k x m z Hin Hh IH]; intros c Hc Hx.
+  - exists c. split; [exact Hc|]. split; [exact Hx|constructor].
+  - subst x. rewrite id_conn_spec in Hin by assumption. apply in_map_iff in Hin.
+    destruct Hin as [m' [Hm Hin]].
+    assert (good dims m') as Hg.
+    { apply (conn_c_spec Hok) in Hin; [|exact Hc]. destruct Hin as [e [_ [_ [_ Hg]]]]. exact Hg. }
+    destruct (IH m' Hg (eq_sym Hm)) as [d [Hd [Hz Hgh]]].
+    exists d. split; [exact Hd|]. split; [exact Hz|]. econstructor; eassumption.
+Qed.
+
+Lemma ghops_to_id : tables_2d_ok = true -> forall moore torus dims, Forall (fun d => 0 < d) dims ->
+  forall k c d, ghops (conn_c moore torus dims) k c d -> good dims c ->
+  hops (id_conn moore torus dims) k (coord_id dims c) (coord_id dims d).
+Proof.
+  intros Hok moore torus dims Hpos k c d H. induction H as [c|k c m d Hin Hh IH]; intros Hc.
+  - constructor.
+  - assert (good dims m) as Hg.
+    { apply (conn_c_spec Hok) in Hin; [|exact Hc]. destruct Hin as [e [_ [_ [_ Hg]]]]. exact Hg. }
+    econstructor; [|apply IH; exact Hg].
+    rewrite id_conn_spec by assumption. apply in_map. exact Hin.
+Qed.
+
+(* the model's neighbourhood function on the model's own table of a Moore / von Neumann grid:
+   exactly the in-grid cells at Chebyshev / Manhattan distance 1..radius (+ the centre iff include_center) *)
+Lemma nbhd_metric_ball : tables_2d_ok = true ->
+  forall moore torus dims, Forall (fun d => 0 < d) dims ->
+  forall c, good dims c -> forall n ic,
+  (forall d, good dims d ->
+     (In (coord_id dims d) (nbhd (id_conn moore torus dims) n ic (coord_id dims c)) <->
+      (1 <= gdist moore torus dims c d <= Z.of_nat (S n)) \/ (ic = true /\ d = c))) /\
+  (forall z, In z (nbhd (id_conn moore torus dims) n ic (coord_id dims c)) ->
+     exists d, good dims d /\ z = coord_id dims d).
+Proof.
+  intros Hok moore torus dims Hpos c Hc n ic. split.
+  - intros d Hd. rewrite nbhd_is_ball.
+    assert (0 <= gdist moore torus dims c d) as Hnn
+      by (destruct (dists_nonneg torus dims c d Hc Hd); unfold gdist; destruct moore; lia).
+    assert (gdist moore torus dims c d = 0 <-> c = d) as Hz.
+    { split.
+      - destruct (dist_zero_eq torus dims c d Hc Hd). unfold gdist. destruct moore; auto.
+      - intros <-. destruct (dist_refl torus dims c Hc). unfold gdist. destruct moore; auto. }
+    split.
+    + intros [[Hne [k [Hk Hh]]]|[Hic He]].
+      * left. destruct (hops_id_to_c Hok moore torus dims Hpos k _ _ Hh c Hc eq_refl) as [d' [Hd' [Hz' Hgh]]].
+        apply coord_id_inj in Hz'; try assumption. subst d'.
+        destruct (ghops_dist Hok moore torus dims k c d Hgh Hc) as [_ Hdist].
+        assert (gdist moore torus dims c d <> 0) by (intros E; apply Hz in E; subst d; apply Hne; reflexivity). lia.
+      * right. split; [exact Hic|]. apply coord_id_inj in He; assumption.
+    + intros [[H1 H2]|[Hic ->]]; [|right; auto].
+      left. split.
+      * intros E. apply coord_id_inj in E; try assumption. subst d. assert (gdist moore torus dims c c = 0) by (apply Hz; reflexivity). lia.
+      * destruct (dist_ghops Hok moore torus dims (S n) c d Hc Hd H2) as [j [Hj Hgh]].
+        exists j. split; [exact Hj|]. apply (ghops_to_id Hok); assumption.
+  - intros z Hz. apply nbhd_is_ball in Hz. destruct Hz as [[_ [k [_ Hh]]]|[_ ->]].
+    + destruct (hops_id_to_c Hok moore torus dims Hpos k _ _ Hh c Hc eq_refl) as [d [Hd [Hz _]]]. eauto.
+    + eauto.
+Qed.
+
+(* the hop ball of the coordinate-level connection relation is the metric ball *)
+Lemma ball_is_metric : tables_2d_ok = true -> forall moore torus dims r c d, good dims c ->
+  ((exists k, (k <= r)%nat /\ ghops (conn_c moore torus dims) k c d) <->
+   good dims d /\ gdist moore torus dims c d <= Z.of_nat r).
+Proof.
+  intros Hok moore torus dims r c d Hc. split.
+  - intros [k [Hk Hh]]. destruct (ghops_dist Hok moore torus dims k c d Hh Hc). split; [assumption|lia].
+  - intros [Hd Hdist]. apply (dist_ghops Hok); assumption.
+Qed.
+
+(* ================================================================== 6. Delaunay certificate (translation validation) *)
+Lemma idxs_In {A} (l : list A) i : In i (idxs l) <-> 0 <= i < Z.of_nat (length l).
+Proof. unfold idxs. rewrite zrange_In. lia. Qed.
+
+Lemma in_range_In pts i : in_range pts i = true <-> In i (idxs pts).
+Proof. unfold in_range. rewrite idxs_In, andb_true_iff, Z.leb_le, Z.ltb_lt. tauto. Qed.
+
+Lemma tri_adj_spec tris i j :
+  tri_adj tris i j = true <-> exists t z, In t tris /\ In (i, j, z) (perms3 t).
+Proof.
+  unfold tri_adj. rewrite existsb_exists. split.
+  - intros [t [Ht Hp]]. apply existsb_exists in Hp. destruct Hp as [[[x y] z] [Hin He]].
+    apply andb_true_iff in He. destruct He as [E1 E2]. apply Z.eqb_eq in E1, E2. subst. eauto.
+  - intros [t [z [Ht Hp]]]. exists t. split; [exact Ht|]. apply existsb_exists.
+    exists (i, j, z). split; [exact Hp|]. rewrite !Z.eqb_refl. reflexivity.
+Qed.
+
+(* a certified triangulation has exactly the edges the Delaunay specification names *)
+Lemma cert_sound pts tris : delaunay_cert pts tris = true ->
+  forall i j, In i (idxs pts) -> In j (idxs pts) ->
+  (tri_adj tris i j = true <->
+   i <> j /\ exists k, In k (idxs pts) /\ k <> i /\ k <> j /\
+                       empty_circle pts (pnt pts i) (pnt pts j) (pnt pts k) = true).
+Proof.
+  unfold delaunay_cert. rewrite andb_true_iff. intros [Hs Hc] i j Hi Hj. split.
+  - intros H. apply tri_adj_spec in H. destruct H as [t [z [Ht Hp]]].
+    rewrite forallb_forall in Hs. specialize (Hs t Ht). rewrite forallb_forall in Hs.
+    specialize (Hs _ Hp). unfold tri_ok in Hs.
+    rewrite !andb_true_iff, !negb_true_iff, !Z.eqb_neq in Hs.
+    destruct Hs as [[[[[[R1 R2] R3] D1] D2] D3] He].
+    split; [exact D1|]. exists z. split; [apply in_range_In; exact R3|]. auto.
+  - intros [Hne [k [Hk [Hki [Hkj He]]]]].
+    rewrite forallb_forall in Hc. specialize (Hc i Hi). rewrite forallb_forall in Hc.
+    specialize (Hc j Hj). rewrite forallb_forall in Hc. specialize (Hc k Hk).
+    assert (negb (i =? j) && negb (k =? i) && negb (k =? j) &&
+            empty_circle pts (pnt pts i) (pnt pts j) (pnt pts k) = true) as Hpre.
+    { rewrite !andb_true_iff, !negb_true_iff, !Z.eqb_neq. auto. }
+    rewrite Hpre in Hc. exact Hc.
+Qed.
+
+Lemma cert_delaunay pts tris : delaunay_cert pts tris = true -> Z.of_nat (length pts) <> 2 ->
+  forall i j, In i (idxs pts) -> In j (idxs pts) -> tri_adj tris i j = delaunay_adj pts i j.
+Proof.
+  intros Hc Hn i j Hi Hj. pose proof (cert_sound pts tris Hc i j Hi Hj) as Hs.
+  assert (delaunay_adj pts i j = true <->
+          i <> j /\ exists k, In k (idxs pts) /\ k <> i /\ k <> j /\
+                       empty_circle pts (pnt pts i) (pnt pts j) (pnt pts k) = true) as Hd.
+  { unfold delaunay_adj, pnt. rewrite andb_true_iff, negb_true_iff, Z.eqb_neq, orb_true_iff, Z.eqb_eq, existsb_exists.
+    split.
+    - intros [H1 [H2|[k [Hk Hk2]]]]; [contradiction|]. split; [exact H1|]. exists k.
+      rewrite !andb_true_iff, !negb_true_iff, !Z.eqb_neq in Hk2. tauto.
+    - intros [H1 [k [Hk [H2 [H3 H4]]]]]. split; [exact H1|]. right. exists k. split; [exact Hk|].
+      rewrite !andb_true_iff, !negb_true_iff, !Z.eqb_neq. tauto. }
+  destruct (tri_adj tris i j), (delaunay_adj pts i j); try reflexivity.
+  - symmetry. apply Hd. apply Hs. reflexivity.
+  - apply Hs. apply Hd. reflexivity.
 Qed.
